@@ -42,7 +42,7 @@ CASE_TIMEOUT = {'quick': 240, 'thorough': 600}
 
 
 # appended to RULE in the evidence (vlib/runner.py)
-RULE_ADDENDUM = "Added in round 6: skeletonize specs carry conditional controls and AND / OR rules over junction pressures, tank levels and pipe flows; the set of protected elements is read off the generator's spec, not asked of the model."
+RULE_ADDENDUM = "Added in round 6: skeletonize specs carry conditional controls and AND / OR rules over junction pressures, tank levels and pipe flows; the set of protected elements is read off the generator's spec, not asked of the model. Round 7: every third branch pipe carries the name of the junction it leads to, and a rule looks at both."
 
 def n_cases(tier):
     return 260 if tier == 'quick' else 8000
